@@ -1,5 +1,6 @@
 """C26 — Dolt returns the same query results as the reference engine."""
 import copy
+import json
 
 from lib.vlib import cq_list, cq_bool
 
@@ -38,7 +39,7 @@ LEVEL_NOTE = ("Partial: the theorems cover the key-value executors and range con
               "COUNT(col) on a keyless table tests the wrong tuple field.")
 THEOREMS = ["ranges_sound_complete", "above_start_monotone", "below_stop_antitone", "merge_join_spec", "merge_join_inner_spec",
             "merge_join_left_spec_partial", "lookup_join_spec", "count_fast_path_spec"]
-REFUTED = ["merge_join_left_refuted", "count_fast_path_keyless_refuted"]
+REFUTED = ["merge_join_left_refuted", "merge_join_sm_left_refuted", "count_fast_path_keyless_refuted"]
 RULE = ("tables t(id pk, a, b, c; indexes (a), (a,b)), u((x,y) pk, z; index (z)), keyless k(a,b; index (a)) with 0-40 rows (joins: <= 12) of small "
         "integers, int32 extremes and NULLs, duplicates in indexed columns; optional commit followed by deletes/updates/inserts; explicit ranges over "
         "every index (1-2 columns, all cut kinds, empty and inverted ranges included) and SELECTs: filters from < <= = >= > <> BETWEEN IN IS [NOT] NULL "
@@ -47,7 +48,8 @@ RULE = ("tables t(id pk, a, b, c; indexes (a), (a,b)), u((x,y) pk, z; index (z))
 ASSUMPTIONS = ["integer (INT) columns only; one or two tables per query; the model evaluates a filter through an index only when it is a conjunction "
                "of one-column atoms matching the index prefix, otherwise model = declarative filter"]
 REQUIRED_TAGS = ["range-pruned", "range-contig", "range-noncontig", "range-all-eq", "range-null-cut", "range-int32-max", "range-visits", "range-2col",
-                 "q-merge", "q-lookup", "q-left", "q-asof", "q-count", "q-ita", "q-null-join-keys", "q-dup-both-sides", "q-ordered", "q-via-index", "q-keyless"]
+                 "q-merge", "q-lookup", "q-left", "q-asof", "q-count", "q-ita", "q-null-join-keys", "q-dup-both-sides", "q-ordered", "q-via-index", "q-keyless", "q-merge-ordered", "q-group-by", "q-distinct", "q-limit", "q-projection", "q-in-subquery",
+                 "q-not-in-subquery", "q-asof-tag", "q-asof-branch", "q-asof-head", "q-asof-head-n"]
 
 VALS = [-1, 0, 1, 2, 3]
 EXT = [2147483647, -2147483648, 2147483646]
@@ -165,13 +167,18 @@ def gen_pred(rng, ncols, depth=0):
     return ["not", gen_pred(rng, ncols, depth + 1)]
 
 
-def pred_sql(p, cols, al=""):
+def pred_sql(p, cols, al="", sub_asof=""):
     k = p[0]
     if k in ("and", "or"):
-        return "(%s %s %s)" % (pred_sql(p[1], cols, al), k, pred_sql(p[2], cols, al))
+        return "(%s %s %s)" % (pred_sql(p[1], cols, al, sub_asof), k, pred_sql(p[2], cols, al, sub_asof))
+    if k == "not" and p[1][0] == "insub":
+        q_ = p[1]
+        return "%s not in (select %s from %s%s)" % (al + cols[q_[1]], TABLES[q_[2]][1][q_[3]], q_[2], sub_asof)
     if k == "not":
-        return "(not %s)" % pred_sql(p[1], cols, al)
+        return "(not %s)" % pred_sql(p[1], cols, al, sub_asof)
     c = al + cols[p[1]]
+    if k == "insub":
+        return "%s in (select %s from %s%s)" % (c, TABLES[p[2]][1][p[3]], p[2], sub_asof)
     if k == "cmp":
         return "%s %s %d" % (c, p[2], p[3])
     if k == "between":
@@ -187,15 +194,17 @@ def cq_z(v):
     return "(%d)%%Z" % v
 
 
-def cq_pred(p):
+def cq_pred(p, tabs=None):
     k = p[0]
     if k == "and":
-        return "(PAnd %s %s)" % (cq_pred(p[1]), cq_pred(p[2]))
+        return "(PAnd %s %s)" % (cq_pred(p[1], tabs), cq_pred(p[2], tabs))
     if k == "or":
-        return "(POr %s %s)" % (cq_pred(p[1]), cq_pred(p[2]))
+        return "(POr %s %s)" % (cq_pred(p[1], tabs), cq_pred(p[2], tabs))
     if k == "not":
-        return "(PNot %s)" % cq_pred(p[1])
+        return "(PNot %s)" % cq_pred(p[1], tabs)
     c = "%d%%nat" % p[1]
+    if k == "insub":
+        return "(PInCells %s %s)" % (c, cq_list(cq_cell(r[p[3]]) for r in tabs[p[2]]))
     if k == "cmp":
         return "(PCmp %s %s %s)" % (c, {"<": "OLt", "<=": "OLe", "=": "OEq", ">=": "OGe", ">": "OGt", "<>": "ONe"}[p[2]], cq_z(p[3]))
     if k == "between":
@@ -285,71 +294,112 @@ def gen_range(rng, tb):
 
 # ---- queries --------------------------------------------------------------------
 def asof(q, snap):
-    return " as of 'HEAD'" if snap else ""
+    """snap: falsy = working set; True = 'HEAD'; otherwise the revision text (tag, branch, HEAD~1)"""
+    if not snap:
+        return ""
+    return " as of '%s'" % ("HEAD" if snap is True else snap)
 
 
-def gen_sel(rng, commit):
+def pick_ref(rng, ctx, p_):
+    if ctx["commit"] and rng.random() < p_:
+        return rng.choice(ctx["refs"])
+    return ""
+
+
+def gen_sel(rng, ctx):
     tname = rng.choice(["t", "t", "t", "u", "u", "k"])
     _, cols = TABLES[tname]
     p = gen_pred(rng, len(cols))
-    if rng.random() < 0.3:
+    x = rng.random()
+    if x < 0.3:
         # index-shaped on purpose
         if tname == "t":
             p = rng.choice([gen_atom(rng, 1), gen_atom(rng, 0), ["and", gen_atom(rng, 1), gen_atom(rng, 2)]])
         elif tname == "u":
             p = rng.choice([gen_atom(rng, 0), gen_atom(rng, 2), ["and", gen_atom(rng, 0), gen_atom(rng, 1)]])
-    snap = commit and rng.random() < 0.25
+    elif x < 0.45:
+        # IN / NOT IN (subquery), NULLs on both sides
+        t2 = rng.choice([n for n in ("t", "u", "k") if n != tname] + ["u"])
+        sub = ["insub", rng.randrange(len(cols)), t2, rng.randrange(len(TABLES[t2][1]))]
+        if rng.random() < 0.5:
+            sub = ["not", sub]
+        p = sub if rng.random() < 0.6 else [rng.choice(["and", "or"]), sub, gen_atom(rng, rng.randrange(len(cols)))]
+    ref = pick_ref(rng, ctx, 0.25)
     ordered = tname != "k" and rng.random() < 0.6
+    proj, distinct, limit = None, False, None
+    y = rng.random()
+    if y < 0.2:
+        proj = {"t": rng.choice([[1, 0], [1], [1, 2], [2, 1, 0], [3]]), "u": rng.choice([[2], [0], [2, 0, 1], [1, 2]]), "k": rng.choice([[0], [1, 0]])}[tname]
+        distinct = rng.random() < 0.6
+        ordered = False
+    elif y < 0.35 and ordered:
+        limit = rng.choice([0, 1, 2, 5])
     order = {"t": " order by id", "u": " order by x, y"}.get(tname, "") if ordered else ""
-    w = pred_sql(p, cols)
-    q = "select * from %s%s where %s%s" % (tname, asof(None, snap), w, order)
-    rq = "select * from %s where %s%s" % (tname, w, order)
-    return {"kind": "sel", "tbl": tname, "p": p, "snap": snap, "ord": ordered, "q": q, "rq": rq, "rdb": "snap" if snap else "cur"}
+    w = pred_sql(p, cols, sub_asof=asof(None, ref))
+    w0 = pred_sql(p, cols)
+    sel = ("distinct " if distinct else "") + ("*" if proj is None else ", ".join(cols[c] for c in proj))
+    lim = "" if limit is None else " limit %d" % limit
+    q = "select %s from %s%s where %s%s%s" % (sel, tname, asof(None, ref), w, order, lim)
+    rq = "select %s from %s where %s%s%s" % (sel, tname, w0, order, lim)
+    return {"kind": "sel", "tbl": tname, "p": p, "snap": bool(ref), "ref": ref, "ord": ordered, "proj": proj, "distinct": distinct, "limit": limit,
+            "q": q, "rq": rq, "rdb": "snap" if ref else "cur"}
 
 
-def gen_count(rng, commit):
+def gen_group(rng, ctx):
+    tname = rng.choice(["t", "t", "u", "k"])
+    _, cols = TABLES[tname]
+    col = {"t": rng.choice([1, 1, 2, 3]), "u": rng.choice([2, 0]), "k": 0}[tname]
+    ref = pick_ref(rng, ctx, 0.2)
+    q = "select %s, count(*) from %s%s group by %s" % (cols[col], tname, asof(None, ref), cols[col])
+    rq = "select %s, count(*) from %s group by %s" % (cols[col], tname, cols[col])
+    return {"kind": "group", "tbl": tname, "col": col, "snap": bool(ref), "ref": ref, "ord": False, "q": q, "rq": rq, "rdb": "snap" if ref else "cur"}
+
+
+def gen_count(rng, ctx):
     tname = rng.choice(["t", "u", "k"])
     _, cols = TABLES[tname]
     col = None if rng.random() < 0.5 else rng.randrange(len(cols))
-    snap = commit and rng.random() < 0.25
+    ref = pick_ref(rng, ctx, 0.25)
     e = "*" if col is None else cols[col]
-    q = "select count(%s) from %s%s" % (e, tname, asof(None, snap))
+    q = "select count(%s) from %s%s" % (e, tname, asof(None, ref))
     rq = "select count(%s) from %s" % (e, tname)
-    return {"kind": "count", "tbl": tname, "col": col, "snap": snap, "ord": False, "q": q, "rq": rq, "rdb": "snap" if snap else "cur"}
+    return {"kind": "count", "tbl": tname, "col": col, "snap": bool(ref), "ref": ref, "ord": False, "q": q, "rq": rq, "rdb": "snap" if ref else "cur"}
 
 
-def gen_join(rng, commit):
+def gen_join(rng, ctx):
     lt, rt = rng.choice([("t", "u"), ("t", "u"), ("u", "t"), ("t", "t")])
     lc = rng.choice({"t": [1, 1, 2, 0], "u": [0, 2, 1]}[lt])
     rc = rng.choice({"t": [1, 1, 0, 2], "u": [0, 0, 2, 1]}[rt])
     hint = rng.choice(["/*+ MERGE_JOIN(l,r) */ ", "/*+ MERGE_JOIN(l,r) */ ", "/*+ LOOKUP_JOIN(l,r) */ ", "/*+ LOOKUP_JOIN(l,r) */ ",
                        "/*+ HASH_JOIN(l,r) */ ", "/*+ INNER_JOIN(l,r) */ ", "/*+ JOIN_ORDER(l,r) */ ", ""])
     left = rng.random() < 0.4
-    snap = commit and rng.random() < 0.2
+    snap = pick_ref(rng, ctx, 0.2)
     lcols, rcols = TABLES[lt][1], TABLES[rt][1]
     sel = ", ".join(["l." + c for c in lcols] + ["r." + c for c in rcols])
     q = "select %s%s from %s%s l %sjoin %s%s r on l.%s = r.%s" % (hint, sel, lt, asof(None, snap), "left " if left else "", rt, asof(None, snap), lcols[lc], rcols[rc])
     rq = "select %s%s from %s l %sjoin %s r on l.%s = r.%s" % (hint, sel, lt, "left " if left else "", rt, lcols[lc], rcols[rc])
-    return {"kind": "join", "lt": lt, "rt": rt, "lc": lc, "rc": rc, "left": left, "snap": snap, "ord": False, "q": q, "rq": rq,
+    return {"kind": "join", "lt": lt, "rt": rt, "lc": lc, "rc": rc, "left": left, "snap": bool(snap), "ref": snap, "ord": False, "q": q, "rq": rq,
             "rdb": "snap" if snap else "cur"}
 
 
-def build(tb, commit, later_sql, cur, ranges, qs):
-    return {"tables": tb, "cur": cur, "setup": setup_sql(tb), "commit": commit, "later": later_sql, "ranges": ranges, "qs": qs,
+def build(tb, commit, later_sql, cur, ranges, qs, commit2=False):
+    return {"tables": tb, "cur": cur, "setup": setup_sql(tb), "commit": commit, "commit2": commit2, "later": later_sql, "ranges": ranges, "qs": qs,
             "queries": [{"q": q["q"], "rq": q["rq"], "rdb": q["rdb"], "ord": q["ord"]} for q in qs]}
 
 
 def gen_one(rng, join):
     tb = gen_tables(rng, join)
     commit = rng.random() < 0.5
+    commit2 = commit and rng.random() < 0.5
     later_sql, cur = gen_later(rng, tb) if commit else ([], copy.deepcopy(tb))
+    ctx = {"commit": commit, "refs": ["v1", "b1", "HEAD~1"] if commit2 else ["v1", "b1", "HEAD"]}
     if join:
         ranges = []
-        qs = [gen_join(rng, commit) for _ in range(6)] + [gen_count(rng, commit)]
+        qs = [gen_join(rng, ctx) for _ in range(6)] + [gen_count(rng, ctx)]
     else:
         ranges = [gen_range(rng, cur) for _ in range(6)]
-        qs = [gen_sel(rng, commit) for _ in range(7)] + [gen_count(rng, commit)]
-    return build(tb, commit, later_sql, cur, ranges, qs)
+        qs = [gen_sel(rng, ctx) for _ in range(7)] + [gen_count(rng, ctx), gen_group(rng, ctx)]
+    return build(tb, commit, later_sql, cur, ranges, qs, commit2)
 
 
 def fixed_cases():
@@ -383,8 +433,19 @@ def fixed_cases():
     wt = {"t": [[1, None, 0, 0], [2, 0, 0, 0]], "u": [[1, 1, None], [1, 2, None], [1, 3, 0]], "k": [[None, 1]]}
     wq = [j("u", "t", 2, 1, M, True), j("u", "t", 2, 1, L, True), j("u", "t", 2, 1, M, False),
           {"kind": "count", "tbl": "k", "col": 0, "snap": False, "ord": False, "q": "select count(a) from k", "rq": "select count(a) from k", "rdb": "cur"},
-          {"kind": "count", "tbl": "k", "col": None, "snap": False, "ord": False, "q": "select count(*) from k", "rq": "select count(*) from k", "rdb": "cur"}]
-    return [build(tb, True, later, cur, ranges, qs), build(wt, False, [], copy.deepcopy(wt), [], wq)]
+          {"kind": "count", "tbl": "k", "col": None, "snap": False, "ord": False, "q": "select count(*) from k", "rq": "select count(*) from k", "rdb": "cur"},
+          # NOT IN (subquery): NULL on the left (t.a of row 1) and NULL inside the subquery (u.z)
+          {"kind": "sel", "tbl": "t", "p": ["not", ["insub", 1, "u", 0]], "snap": False, "ref": "", "ord": True, "proj": None, "distinct": False, "limit": None,
+           "q": "select * from t where a not in (select x from u) order by id", "rq": "select * from t where a not in (select x from u) order by id", "rdb": "cur"},
+          {"kind": "sel", "tbl": "t", "p": ["not", ["insub", 0, "u", 2]], "snap": False, "ref": "", "ord": True, "proj": None, "distinct": False, "limit": None,
+           "q": "select * from t where id not in (select z from u) order by id", "rq": "select * from t where id not in (select z from u) order by id", "rdb": "cur"},
+          {"kind": "sel", "tbl": "t", "p": ["insub", 1, "u", 2], "snap": False, "ref": "", "ord": True, "proj": None, "distinct": False, "limit": None,
+           "q": "select * from t where a in (select z from u) order by id", "rq": "select * from t where a in (select z from u) order by id", "rdb": "cur"}]
+    # NOT IN (subquery) rewritten to LeftOuterMergeJoin + Filter(IS NULL) once the tables are big enough for that plan
+    nt = {"t": [[1, None, 0, 0], [2, 0, 0, 0], [3, 5, 0, 0]],
+          "u": [[1, 1, None], [1, 2, None], [1, 3, 0], [2, 1, 7], [3, 1, 7], [4, 1, 7], [5, 1, 7], [6, 1, 7]], "k": []}
+    nq = [q_ for q_ in wq if q_["kind"] == "sel"]
+    return [build(tb, True, later, cur, ranges, qs), build(wt, False, [], copy.deepcopy(wt), [], wq), build(nt, False, [], copy.deepcopy(nt), [], nq)]
 
 
 def gen_cases(rng, tier):
@@ -442,17 +503,62 @@ BAD_Q = "{| q_rows := []; q_ref := false; q_err := true |}"
 PLAN = {"merge": 0, "lookup": 1}
 
 
-def cq_query(q, qo):
+def cq_query(case, q, qo):
     snap = cq_bool(q["snap"])
+    tabs = case["tables"] if q["snap"] else case["cur"]
     if q["kind"] == "sel":
         ix = index_for(q["tbl"], q["p"])
         ixs = "None" if ix is None else "(Some (%s, %s))" % (cq_nats(ix[0]), cq_bools(ix[1]))
-        return "(QSel %d%%nat %s %s %s %s)" % (TABLES[q["tbl"]][0], snap, cq_pred(q["p"]), cq_bool(q["ord"]), ixs)
+        proj = q.get("proj")
+        lim = q.get("limit")
+        return "(QSel %d%%nat %s %s %s %s %s %s %s)" % (
+            TABLES[q["tbl"]][0], snap, cq_pred(q["p"], tabs), cq_bool(q["ord"]), ixs,
+            "None" if proj is None else "(Some %s)" % cq_nats(proj), cq_bool(q.get("distinct", False)),
+            "None" if lim is None else "(Some %d%%nat)" % lim)
+    if q["kind"] == "group":
+        return "(QGroup %d%%nat %s %d%%nat)" % (TABLES[q["tbl"]][0], snap, q["col"])
     if q["kind"] == "count":
         return "(QCount %d%%nat %s %s %s)" % (TABLES[q["tbl"]][0], snap, cq_bool(q["tbl"] == "k"), "None" if q["col"] is None else "(Some %d%%nat)" % q["col"])
     plan = PLAN.get((qo or {}).get("plan"), 2)
-    return "(QJoin %d %s %s %d%%nat %d%%nat %d%%nat %d%%nat %d%%nat)" % (
-        plan, cq_bool(q["left"]), snap, TABLES[q["lt"]][0], TABLES[q["rt"]][0], q["lc"], q["rc"], len(TABLES[q["rt"]][1]))
+    return "(QJoin %d %s %s %d%%nat %d%%nat %d%%nat %d%%nat %d%%nat %s)" % (
+        plan, cq_bool(q["left"]), snap, TABLES[q["lt"]][0], TABLES[q["rt"]][0], q["lc"], q["rc"], len(TABLES[q["rt"]][1]), cq_ord(q, qo))
+
+
+PKS = {"t": [0], "u": [0, 1]}
+
+
+def join_ord(q, qo):
+    """(swap, key columns of the iterator's left index, of its right index) when the plan is a merge join whose two
+    index accesses could be read off EXPLAIN; None otherwise"""
+    if not qo or qo.get("plan") != "merge" or len(qo.get("palias") or []) != 2 or len(qo.get("pindex") or []) != 2:
+        return None
+    if sorted(qo["palias"]) != ["l", "r"]:
+        return None
+    swap = qo["palias"][0] == "r"
+    if swap and q["left"]:
+        return None
+    tabs = [q["rt"], q["lt"]] if swap else [q["lt"], q["rt"]]
+    out = []
+    for tname, ix in zip(tabs, qo["pindex"]):
+        cols = TABLES[tname][1]
+        pos = []
+        for c in ix.split(","):
+            c = c.strip().split(".")[-1]
+            if c not in cols:
+                return None
+            pos.append(cols.index(c))
+        if tname not in PKS:
+            return None
+        pos += [p_ for p_ in PKS[tname] if p_ not in pos]
+        out.append(pos)
+    return (swap, out[0], out[1])
+
+
+def cq_ord(q, qo):
+    o = join_ord(q, qo)
+    if o is None:
+        return "None"
+    return "(Some (%s, %s, %s))" % (cq_bool(o[0]), cq_nats(o[1]), cq_nats(o[2]))
 
 
 def coq_case(case, out):
@@ -474,7 +580,7 @@ def coq_case(case, out):
     queries, qobs = [], []
     for i, q in enumerate(case["qs"]):
         qo = o["queries"][i] if ok else None
-        queries.append(cq_query(q, qo))
+        queries.append(cq_query(case, q, qo))
         if not qo or qo["err"]:
             qobs.append(BAD_Q)
         else:
@@ -528,12 +634,33 @@ def classify(case, out):
             t.add("q-ordered")
         if q["kind"] == "count":
             t.add("q-count")
+        if q["kind"] == "group":
+            t.add("q-group-by")
+        if q["kind"] == "sel":
+            if q.get("distinct"):
+                t.add("q-distinct")
+            if q.get("limit") is not None:
+                t.add("q-limit")
+            if q.get("proj") is not None:
+                t.add("q-projection")
+            txt = json.dumps(q["p"])
+            if "insub" in txt:
+                t.add("q-in-subquery")
+                if '"not", ["insub"' in txt:
+                    t.add("q-not-in-subquery")
+        if q.get("ref"):
+            t.add("q-asof-" + {"v1": "tag", "b1": "branch", "HEAD": "head", "HEAD~1": "head-n"}.get(q["ref"], "other"))
         if q.get("tbl") == "k":
             t.add("q-keyless")
         if q["kind"] == "sel" and index_for(q["tbl"], q["p"]) is not None:
             t.add("q-via-index")
         if q["kind"] == "join":
             t.add("q-" + qo["plan"])
+            o_ = join_ord(q, qo)
+            if o_ is not None:
+                t.add("q-merge-ordered")
+                if o_[0]:
+                    t.add("q-merge-swapped")
             if q["left"]:
                 t.add("q-left")
             tabs = case["tables"] if q["snap"] else case["cur"]
@@ -582,16 +709,22 @@ def search_cases(rng):
 # ---- known findings --------------------------------------------------------------------
 # The declarative answers are recomputed here only to decide WHICH queries of a failing case fail, so that a case is
 # attributed to a known finding only when every failing query is an instance of it (the verdict itself comes from Coq).
-def py_eval(p, r):
+def py_eval(p, r, tabs=None):
     k = p[0]
+    if k == "insub":
+        v = r[p[1]]
+        if v is None:
+            return None
+        vs = [x[p[3]] for x in tabs[p[2]]]
+        return True if v in vs else (None if None in vs else False)
     if k == "and":
-        a, b = py_eval(p[1], r), py_eval(p[2], r)
+        a, b = py_eval(p[1], r, tabs), py_eval(p[2], r, tabs)
         return False if (a is False or b is False) else (True if (a is True and b is True) else None)
     if k == "or":
-        a, b = py_eval(p[1], r), py_eval(p[2], r)
+        a, b = py_eval(p[1], r, tabs), py_eval(p[2], r, tabs)
         return True if (a is True or b is True) else (False if (a is False and b is False) else None)
     if k == "not":
-        a = py_eval(p[1], r)
+        a = py_eval(p[1], r, tabs)
         return None if a is None else (not a)
     v = r[p[1]]
     if k == "isnull":
@@ -610,7 +743,25 @@ def py_eval(p, r):
 def py_expected(case, q):
     tabs = case["tables"] if q["snap"] else case["cur"]
     if q["kind"] == "sel":
-        return [list(r) for r in tabs[q["tbl"]] if py_eval(q["p"], r) is True]
+        rows = [list(r) for r in tabs[q["tbl"]] if py_eval(q["p"], r, tabs) is True]
+        if q.get("proj") is not None:
+            rows = [[r[c] for c in q["proj"]] for r in rows]
+        if q.get("distinct"):
+            seen, out = set(), []
+            for r in rows:
+                if tuple(r) not in seen:
+                    seen.add(tuple(r))
+                    out.append(r)
+            rows = out
+        if q.get("limit") is not None:
+            rows = rows[:q["limit"]]
+        return rows
+    if q["kind"] == "group":
+        keys = []
+        for r in tabs[q["tbl"]]:
+            if r[q["col"]] not in keys:
+                keys.append(r[q["col"]])
+        return [[k_, sum(1 for r in tabs[q["tbl"]] if r[q["col"]] == k_)] for k_ in keys]
     if q["kind"] == "count":
         rows = tabs[q["tbl"]]
         return [[len(rows) if q["col"] is None else sum(1 for r in rows if r[q["col"]] is not None)]]
@@ -655,9 +806,12 @@ def failing_queries(case, o):
 
 KEY_COUNT = "kvexec:count-col-keyless-wrong-field"
 KEY_MERGE = "kvexec:left-merge-join-refills-lookahead-after-null-keys"
+KEY_NOTIN = "gms:not-in-subquery-ignores-nulls"
 
 
 def category(case, q, qo):
+    if q["kind"] == "sel" and '"not", ["insub"' in json.dumps(q["p"]) and not qo["err"] and qo["ref_eq"]:
+        return KEY_NOTIN
     if q["kind"] == "count" and q["tbl"] == "k" and q["col"] is not None and not qo["err"]:
         return KEY_COUNT
     if q["kind"] == "join" and q["left"] and qo["plan"] == "merge" and not qo["err"]:
